@@ -168,6 +168,10 @@ def _mval(m, e):
             return None
 
 
+def _numf(e):
+    return float(e.as_long()) if z3.is_int_value(e) else float(e.as_fraction())
+
+
 def refine(ctx, m):
     """add true-value facts for every UF / abstract product application at the model's arguments"""
     added = 0
@@ -207,6 +211,47 @@ def refine(ctx, m):
                     ctx.add(z3.Implies(inside, app <= line + tol))
                 else:
                     ctx.add(z3.Implies(inside, app >= line - tol))
+    # interval cuts for abstract products from bounds that the path condition states syntactically (t <= c, t >= c)
+    bounds = {}
+    for asr in ctx.s.assertions():
+        e = asr
+        neg = False
+        if z3.is_not(e):
+            e = e.arg(0); neg = True
+        if not z3.is_app(e) or e.num_args() != 2:
+            continue
+        kd = e.decl().kind()
+        if kd not in (z3.Z3_OP_LE, z3.Z3_OP_GE, z3.Z3_OP_LT, z3.Z3_OP_GT):
+            continue
+        l, r = e.arg(0), e.arg(1)
+        if core._isnum(r) and not core._isnum(l):
+            t_, c_, kk = l, _numf(r), kd
+        elif core._isnum(l) and not core._isnum(r):
+            t_, c_ = r, _numf(l)
+            kk = {z3.Z3_OP_LE: z3.Z3_OP_GE, z3.Z3_OP_GE: z3.Z3_OP_LE, z3.Z3_OP_LT: z3.Z3_OP_GT, z3.Z3_OP_GT: z3.Z3_OP_LT}[kd]
+        else:
+            continue
+        upper = kk in (z3.Z3_OP_LE, z3.Z3_OP_LT)
+        if neg:
+            upper = not upper
+        lo, hi = bounds.get(t_.get_id(), (None, None))
+        if upper:
+            hi = c_ if hi is None else min(hi, c_)
+        else:
+            lo = c_ if lo is None else max(lo, c_)
+        bounds[t_.get_id()] = (lo, hi)
+    for key, (k, a, b, t) in list(ctx.nl_seen.items()):
+        if k == "mul":
+            (la, ha), (lb, hb) = bounds.get(a.get_id(), (None, None)), bounds.get(b.get_id(), (None, None))
+            dk = (key, "iv", ha, hb)
+            if dk not in ctx.anchor_done and (ha is not None or hb is not None):
+                ctx.anchor_done.add(dk)
+                if ha is not None and ha >= 0:
+                    ctx.add(z3.Implies(z3.And(a >= 0, b >= 0, a <= RV(ha)), t <= RV(ha) * b))
+                    added += 1
+                if hb is not None and hb >= 0:
+                    ctx.add(z3.Implies(z3.And(a >= 0, b >= 0, b <= RV(hb)), t <= a * RV(hb)))
+                    added += 1
     for key, (k, a, b, t) in list(ctx.nl_seen.items()):
         a0 = _mval(m, a); b0 = _mval(m, b)
         if a0 is None or b0 is None:
